@@ -2,6 +2,7 @@ import StrumProofs.C01
 import StrumProofs.C17
 import StrumProofs.Collect
 import StrumProofs.Source
+import StrumProofs.Agree
 /-
 C20 — unsupported input gets a compile error, never a macro panic or silent acceptance.
 Model: `validate` (StrumModel/Validate.lean).  Each rejection rule of the property is a predicate on the
